@@ -3844,3 +3844,44 @@ def run_lr_block(v, pad, l, enc, exc_code):
         same = False
     info.update(reread=y, eq=bool(y == o), same_canon=cy == co, rewrite_same=same)
     return out + [0, h63_list(0, cy), int(cy == co), wf], info
+
+
+
+# ----------------------------------------------------------------------------- engine data (psd/engine_data.py): implementation-only oracle
+# The tokenizer / printer of engine data is not modelled (engine data is opaque bytes in the Coq model).  In scope of the
+# round trip: property names [A-Za-z0-9_]+, strings without lone surrogates, floats on the 1e-8 grid ("%.8f"), the known tags.
+ED_CHARS = [0x5C, 0x28, 0x29, 0x5C5C, 0x285C, 0x5C28, 0x5C29, 0x295C, 0x2829, 0x41, 0x0A, 0x20, 0x0D, 0x09, 0x3E3E, 0x2F41, 0x5B, 0x5D, 0xFEFF, 0xFFFE, 0, 0x3042]
+
+
+def g_engine_value(rng, depth=0):
+    from psd_tools.psd import engine_data as E
+
+    r = rng.random()
+    if r < 0.3:
+        s = "".join(chr(rng.choice(ED_CHARS)) for _ in range(rng.choice([0, 1, 2, 3, 5])))
+        if rng.random() < 0.2:
+            s += "\U0001F600"
+        return E.String(s)
+    if r < 0.42:
+        return E.Integer(rng.choice([0, -1, 5, 2 ** 40, -2 ** 31]))
+    if r < 0.56:
+        k = rng.choice([0, 50000000, -5000000, 150000000, 10025000000, -300000000, 1, -1, 99999999, 1234567800000, rng.randrange(-10 ** 12, 10 ** 12)])
+        return E.Float(k / 1e8)
+    if r < 0.64:
+        return E.Bool(rng.random() < 0.5)
+    if r < 0.68:
+        return E.Tag(rng.choice([b"(hwid)", b"(fwid)", b"(aalt)", b"()"]))
+    if r < 0.84 and depth < 3:
+        return E.List([g_engine_value(rng, depth + 1) for _ in range(rng.choice([0, 1, 2, 3]))])
+    if depth < 3:
+        return g_engine_dict(rng, depth + 1)
+    return E.Integer(1)
+
+
+def g_engine_dict(rng, depth=0, cls=None):
+    from psd_tools.psd import engine_data as E
+
+    d = (cls or E.Dict)()
+    for i in range(rng.choice([0, 1, 2, 3, 6])):
+        d[rng.choice(["K%d" % i, "Name_%d" % i, "%d" % i, "a%dZ" % i])] = g_engine_value(rng, depth)
+    return d
